@@ -7,6 +7,7 @@ import (
 	"go/types"
 	"math"
 	"os"
+	"strings"
 	"unicode/utf8"
 
 	"golang.org/x/tools/go/ssa"
@@ -34,21 +35,21 @@ type Interp struct {
 	globals map[*ssa.Global]Loc
 
 	// path state
-	prefix    []uint64
-	pos       int
-	decisions []uint64
-	pushed    int
-	steps     int
-	maxSteps  int
-	symVars   []*Term
-	symSeen   map[*Term]bool
-	known     map[*Term]bool
-	dom       map[*Term]*[4]uint64
-	entangled map[*Term]bool
-	rngMemo   map[*Term][3]int64
-	outputs   []namedOutput
-	reachedP  []string
-	callDepth int
+	prefix        []uint64
+	pos           int
+	decisions     []uint64
+	pushed        int
+	steps         int
+	maxSteps      int
+	symVars       []*Term
+	symSeen       map[*Term]bool
+	known         map[*Term]bool
+	dom           map[*Term]*[4]uint64
+	entangled     map[*Term]bool
+	rngMemo       map[*Term][3]int64
+	outputs       []namedOutput
+	reachedP      []string
+	callDepth     int
 	unknownOnPath int
 
 	// heap bookkeeping
@@ -79,6 +80,7 @@ type Interp struct {
 
 	statKnown, statFast, statNarrow, statSolver int
 	curFn                                       string
+	syncDepth                                   int
 }
 
 type namedOutput struct {
@@ -438,6 +440,10 @@ func (in *Interp) run(fr *Frame) (result Value) {
 	saved := in.curFn
 	in.curFn = fr.fn.Name()
 	in.callDepth++
+	syncModel := strings.HasPrefix(in.curFn, "vstub_sync_")
+	if syncModel {
+		in.syncDepth++ // the bookkeeping of the synchronisation models is not a write of the code under test
+	}
 	if in.callDepth > 400 {
 		in.end("budget", "call depth > 400 in "+fr.fn.String())
 	}
@@ -445,6 +451,9 @@ func (in *Interp) run(fr *Frame) (result Value) {
 	defer func() {
 		in.curFn = saved
 		in.callDepth--
+		if syncModel {
+			in.syncDepth--
+		}
 		if debugMode {
 			if r := recover(); r != nil {
 				if _, ok := r.(pathEnd); !ok {
@@ -1072,7 +1081,23 @@ func (in *Interp) convert(from, to types.Type, v Value) Value {
 	if isString(from) {
 		s := v.(StrVal)
 		if isByteSlice(to) {
-			return in.bytesToSlice(nil, s.B)
+			// the runtime rounds the allocation up to a size class (rawbyteslice): the spare capacity is what lets
+			// in-place consumers (parse.NewInput) work on this very array
+			sv := in.bytesToSlice(nil, s.B)
+			if n := len(s.B); n > 0 && n <= 256 && !in.initMode { // package-level []byte("const") is laid out statically with cap == len
+				c := n
+				for _, sc := range []int{8, 16, 24, 32, 48, 64, 80, 96, 112, 128, 144, 160, 176, 192, 208, 224, 240, 256} {
+					if sc >= n {
+						c = sc
+						break
+					}
+				}
+				for len(sv.Arr.E) < c {
+					sv.Arr.E = append(sv.Arr.E, &Cell{V: Const(8, 0), Epoch: in.epoch})
+				}
+				sv.Cap = c
+			}
+			return sv
 		}
 		if isRuneSlice(to) {
 			bs := in.concBytesOf(s.B)
@@ -1612,10 +1637,10 @@ func (in *Interp) mapSnapshot(m *MapObj) {
 			m.Keys, m.Vals, m.Dead, m.idx, m.nsym, m.nlive, m.Epoch = keys, vals, dead, idx, nsym, nlive, ep
 		})
 		m.Epoch = in.pathEpoch // snapshot once per path
-		if in.monitor && ep < in.monEpoch {
+		if in.monitor && ep < in.monEpoch && in.syncDepth == 0 {
 			in.foreign = append(in.foreign, "map update of pre-existing map in "+in.curFn)
 		}
-	} else if in.monitor && m.Epoch < in.monEpoch {
+	} else if in.monitor && m.Epoch < in.monEpoch && in.syncDepth == 0 {
 		in.foreign = append(in.foreign, "map update of pre-existing map in "+in.curFn)
 	}
 }
